@@ -5,6 +5,7 @@ package core
 import (
 	"errors"
 	"fmt"
+	"sync"
 	"testing"
 	"time"
 
@@ -48,7 +49,11 @@ type c05Slot struct {
 }
 
 type c05Step struct {
-	Kind  int       `json:"k"` // 0 gossip, 1 push/pull, 2 push/pull with join flag, 3 local UserEvent, 4 join-flagged push/pull during Join(ignoreOld)
+	// 0 gossip, 1 push/pull, 2 push/pull with join flag, 3 local UserEvent,
+	// 4 join-flagged push/pull during Join(ignoreOld=true),
+	// 5 join-flagged push/pull during Join(ignoreOld=false) (nothing is to be ignored),
+	// 6 the same event delivered concurrently: twice by gossip and once inside a push/pull
+	Kind  int       `json:"k"`
 	Ev    c05Ev     `json:"ev"`
 	Slots []c05Slot `json:"slots,omitempty"`
 	ELT   uint64    `json:"elt,omitempty"` // EventLTime of the push/pull
@@ -59,15 +64,20 @@ type c05Case struct {
 	Steps []c05Step `json:"steps"`
 }
 
-var c05Names = []string{"deploy", "restart", "e2", "e3"}
-var c05Pays = [][]byte{nil, []byte("x"), []byte("yy")}
+// Pools (shared with C04/C14). New entries are appended so that indices in
+// older replay files keep their meaning. The names include the empty string,
+// a name that extends another one and names with separator characters; the
+// payloads include BOTH representations of "no payload" (nil and empty: the
+// same event by the statement's identity) and a payload that extends another.
+var c05Names = []string{"deploy", "restart", "e2", "e3", "", "deploy:2", "deploy restart"}
+var c05Pays = [][]byte{nil, []byte("x"), []byte("yy"), {}, []byte("xy")}
 
 func genC05(t *rapid.T) c05Case {
 	N := rapid.SampledFrom([]int{1, 2, 3, 4, 8, 64, 512}).Draw(t, "N")
 	n64 := uint64(N)
 	base := rapid.SampledFrom([]uint64{0, 0, 1, 7, 1 << 32, 1 << 63, ^uint64(0) - 600, ^uint64(0) - 40}).Draw(t, "base")
-	nNames := rapid.IntRange(2, 4).Draw(t, "names")
-	nPays := rapid.IntRange(2, 3).Draw(t, "pays")
+	nNames := rapid.SampledFrom([]int{2, 2, 3, 4, 5, 7}).Draw(t, "names")
+	nPays := rapid.SampledFrom([]int{2, 3, 4, 4, 5}).Draw(t, "pays")
 	gclock := uint64(1)
 	var prev []c05Ev
 	drawEv := func() c05Ev {
@@ -119,9 +129,9 @@ func genC05(t *rapid.T) c05Case {
 	c.N = N
 	ns := rapid.IntRange(3, 28).Draw(t, "steps")
 	for i := 0; i < ns; i++ {
-		st := c05Step{Kind: rapid.SampledFrom([]int{0, 0, 0, 0, 1, 1, 2, 3, 4}).Draw(t, "kind")}
+		st := c05Step{Kind: rapid.SampledFrom([]int{0, 0, 0, 0, 0, 1, 1, 2, 3, 4, 4, 5, 6}).Draw(t, "kind")}
 		switch st.Kind {
-		case 0:
+		case 0, 6:
 			st.Ev = drawEv()
 		case 3:
 			st.Ev = c05Ev{Name: rapid.IntRange(0, nNames-1).Draw(t, "name"), Pay: rapid.IntRange(0, nPays-1).Draw(t, "pay")}
@@ -181,6 +191,10 @@ func (k c05Key) String() string { return fmt.Sprintf("(%d,%s,%q)", k.lt, k.name,
 func c05KeyOf(lt uint64, e c05Ev) c05Key {
 	return c05Key{lt, c05Names[e.Name%len(c05Names)], string(c05Pays[e.Pay%len(c05Pays)])}
 }
+
+// c05Bytes is the payload as it is handed to the node: the pool entry itself,
+// so that nil and empty stay different representations of the same payload.
+func c05Bytes(e c05Ev) []byte { return c05Pays[e.Pay%len(c05Pays)] }
 
 func bodyC05(c c05Case, x *vkit.Ctx) {
 	if c.N < 1 {
@@ -297,8 +311,41 @@ func bodyC05(c c05Case, x *vkit.Ctx) {
 				continue
 			}
 			offer(k, &mclock, cutoff, 1)
-			n.Delegate.NotifyMsg(encUserEvent(k.lt, k.name, []byte(k.pay)))
+			n.Delegate.NotifyMsg(encUserEvent(k.lt, k.name, c05Bytes(st.Ev)))
 			x.Label("step:gossip")
+		case 6:
+			// The same event arrives three times at once: two gossip packets and a
+			// push/pull (which announces no clock of its own) handled by three
+			// goroutines, as memberlist's packet and stream handlers do.
+			k := c05KeyOf(st.Ev.LT, st.Ev)
+			if k.lt > maxLT {
+				x.Excluded()
+				continue
+			}
+			offer(k, &mclock, cutoff, 1)
+			offer(k, &mclock, cutoff, 1)
+			offer(k, &mclock, cutoff, 2)
+			msg := encUserEvent(k.lt, k.name, c05Bytes(st.Ev))
+			ppb := encPushPull(&serf.VerifMessagePushPull{Events: []*serf.VerifUserEvents{
+				{LTime: serf.LamportTime(k.lt), Events: []serf.VerifUserEvent{{Name: k.name, Payload: c05Bytes(st.Ev)}}}}})
+			start := make(chan struct{})
+			var wg sync.WaitGroup
+			wg.Add(3)
+			for g := 0; g < 3; g++ {
+				g := g
+				go func() {
+					defer wg.Done()
+					<-start
+					if g == 2 {
+						n.Delegate.MergeRemoteState(ppb, false)
+					} else {
+						n.Delegate.NotifyMsg(append([]byte(nil), msg...))
+					}
+				}()
+			}
+			close(start)
+			wg.Wait()
+			x.Label("step:concurrent-duplicates")
 		case 3:
 			if mclock >= maxLT {
 				x.Label("step:local-skipped-clock-at-top")
@@ -306,12 +353,12 @@ func bodyC05(c c05Case, x *vkit.Ctx) {
 			}
 			k := c05KeyOf(mclock, st.Ev)
 			offer(k, &mclock, cutoff, 1)
-			if err := n.Serf.UserEvent(k.name, []byte(k.pay), false); err != nil {
+			if err := n.Serf.UserEvent(k.name, c05Bytes(st.Ev), false); err != nil {
 				x.Violationf("local-user-event-error", "step %d: UserEvent: %v", si, err)
 				return
 			}
 			x.Label("step:local")
-		case 1, 2, 4:
+		case 1, 2, 4, 5:
 			elt := min(st.ELT, maxLT)
 			pp := &serf.VerifMessagePushPull{EventLTime: serf.LamportTime(elt)}
 			for _, sl := range st.Slots {
@@ -322,17 +369,18 @@ func bodyC05(c c05Case, x *vkit.Ctx) {
 				ue := &serf.VerifUserEvents{LTime: serf.LamportTime(min(sl.LT, maxLT))}
 				for _, e := range sl.Evs {
 					k := c05KeyOf(uint64(ue.LTime), e)
-					ue.Events = append(ue.Events, serf.VerifUserEvent{Name: k.name, Payload: []byte(k.pay)})
+					ue.Events = append(ue.Events, serf.VerifUserEvent{Name: k.name, Payload: c05Bytes(e)})
 				}
 				pp.Events = append(pp.Events, ue)
 			}
 			buf := encPushPull(pp)
-			if st.Kind == 4 {
-				// park a Join(ignoreOld) on the held dial, merge, then fail the dial
+			if st.Kind == 4 || st.Kind == 5 {
+				// park a Join on the held dial, merge, then fail the dial
+				ignoreOld := st.Kind == 4
 				done := make(chan struct{})
 				go func() {
 					defer close(done)
-					_, _ = n.Serf.Join([]string{"127.0.9.9:7946"}, true)
+					_, _ = n.Serf.Join([]string{"127.0.9.9:7946"}, ignoreOld)
 				}()
 				select {
 				case <-parked:
@@ -350,11 +398,17 @@ func bodyC05(c c05Case, x *vkit.Ctx) {
 					x.Violationf("cutoff-decreased", "step %d: event cut-off went from %d to %d", si, nodeCut, newCut)
 					return
 				}
-				if elt > ignoreBelow {
-					ignoreBelow = elt
+				if ignoreOld {
+					if elt > ignoreBelow {
+						ignoreBelow = elt
+					}
+					cutoff = ignoreBelow
+					x.Label("step:pushpull-during-ignore-old-join")
+				} else {
+					// Join(ignoreOld=false): "user messages sent prior to the join"
+					// are NOT to be ignored, so the cut-off of the model stays.
+					x.Label("step:pushpull-during-plain-join")
 				}
-				cutoff = ignoreBelow
-				x.Label("step:pushpull-during-ignore-old-join")
 			} else {
 				n.Delegate.MergeRemoteState(buf, st.Kind == 2)
 				x.Label("step:pushpull")
